@@ -768,6 +768,27 @@ impl Puppet {
         ident::sig_from_bytes(&b)
     }
 
+    /// A batch the node does not have but can obtain: the harness answers the node's batch
+    /// request for it. Used as payload of INVALID proposals: a node that looks at the payload
+    /// before it has verified the proposal parks the block, fetches the batch and then resumes
+    /// the unverified block.
+    fn requestable_batch(&mut self) -> Digest {
+        let tx = Cluster::tx_bytes(40, 7, self.r.next());
+        let bytes = bincode::serialize(&MempoolMessage::Batch(vec![tx])).unwrap();
+        let d = ident::bytes_digest(&bytes);
+        self.batches.insert(d.clone(), bytes);
+        self.probe("puppet.invalid-with-requestable-batch");
+        d
+    }
+
+    fn junk_or_requestable(&mut self) -> Vec<Digest> {
+        if self.r.chance(0.5) {
+            vec![self.requestable_batch()]
+        } else {
+            vec![ident::bytes_digest(&self.r.next().to_le_bytes())]
+        }
+    }
+
     fn inject_invalid(&mut self) {
         let r = self.round_upper.max(self.node_round_estimate());
         let kinds: Vec<u32> = if self.cfg.only_mutations.is_empty() { (0..36).collect() } else { self.cfg.only_mutations.clone() };
@@ -785,7 +806,8 @@ impl Puppet {
         } else {
             None
         };
-        let valid = self.mk_block(author, r, qc.clone(), base_tc.clone(), vec![]);
+        let pl0 = if self.r.chance(0.3) { vec![self.requestable_batch()] } else { vec![] };
+        let valid = self.mk_block(author, r, qc.clone(), base_tc.clone(), pl0);
         let mut what = String::new();
         let mut bad_block: Option<Block> = None;
         let mut bad_other: Option<(usize, ConsensusMessage)> = None;
@@ -907,7 +929,7 @@ impl Puppet {
                     what.push_str(" (for a future round)");
                     bad_block = Some(self.mk_block(fa, fr + 1, fq, None, vec![]));
                 } else {
-                    let pl = vec![ident::bytes_digest(&self.r.next().to_le_bytes())];
+                    let pl = self.junk_or_requestable();
                     let b = self.mk_block(author, r, q, base_tc.clone(), pl);
                     bad_block = Some(b);
                 }
@@ -1039,7 +1061,7 @@ impl Puppet {
                     let highs: Vec<Round> = signers.iter().map(|_| 0).collect();
                     let mut tc = self.mk_tc(r - 1, &signers, &highs);
                     tc.votes[0].1 = self.flip_sig(&tc.votes[0].1.clone());
-                    let pl = vec![ident::bytes_digest(&self.r.next().to_le_bytes())];
+                    let pl = self.junk_or_requestable();
                     let b = self.mk_block(author, r, QC::genesis(), Some(tc), pl);
                     what = "block whose TC has a flipped signature bit".into();
                     bad_block = Some(b);
@@ -1059,7 +1081,7 @@ impl Puppet {
                     QC { hash: Digest::default(), round: r.saturating_sub(1).max(1), votes: vec![] }
                 };
                 if tip_d != Digest::default() || kind == 32 {
-                    let pl = vec![];
+                    let pl = if self.r.chance(0.5) { vec![self.requestable_batch()] } else { vec![] };
                     bad_block = Some(self.mk_block(author, r, q, tc, pl));
                 }
             }
@@ -1107,7 +1129,7 @@ impl Puppet {
                         bad_other = Some((signers[0], ConsensusMessage::TC(tc)));
                     } else if r > 1 {
                         what = format!("block whose TC has a genuine quorum plus {}", fl_txt);
-                        let pl = vec![ident::bytes_digest(&self.r.next().to_le_bytes())];
+                        let pl = self.junk_or_requestable();
                         bad_block = Some(self.mk_block(author, r, QC::genesis(), Some(tc), pl));
                     }
                 }
